@@ -71,6 +71,7 @@ def main():
     try:
         def place():
             for t, rel in places.items():
+                os.makedirs(os.path.dirname(os.path.join(wt, rel)), exist_ok=True)
                 shutil.copy(os.path.join(src, t), os.path.join(wt, rel))
 
         def unplace():
@@ -84,7 +85,9 @@ def main():
         for t, rel in sorted(places.items()):
             mod = module_of(wt, rel)
             pkg = os.path.relpath(os.path.dirname(os.path.join(wt, rel)), os.path.join(wt, mod))
-            demo_cmds.append((mod, "go test -count=1 -timeout 600s -run Seeded ./%s/" % pkg if pkg != "." else "go test -count=1 -timeout 600s -run Seeded ."))
+            names = re.findall(r"(?m)^func (Test\w+)\(", open(os.path.join(src, t)).read())
+            rx = "'^(" + "|".join(names) + ")$'" if names else "Seeded"
+            demo_cmds.append((mod, ("go test -count=1 -timeout 600s -run %s ./%s/" % (rx, pkg)) if pkg != "." else ("go test -count=1 -timeout 600s -run %s ." % rx)))
         demo_cmds = sorted(set(demo_cmds))
 
         def run_demo():
